@@ -38,12 +38,16 @@ OnePerDatum(B) == Len(B.dots) = B.n /\ Len(B.links) = B.n /\ Len(B.boxes) = B.n 
 C07_OnePerDatum == \A B \in Backends : OnePerDatum(B)
 
 \* the affine map of the axis: p = L * (t - d0) / (d1 - d0), in exact arithmetic
-Ms(t) == SAdd(SMul(SB(t[1]), SB(DAYMS)), SB(t[2]))
+\* an instant <<day, ms of day, us of ms>> in microseconds (datetime values carry microseconds: "exactly as supplied")
+Ms(t) == SAdd(SMul(SAdd(SMul(SB(t[1]), SB(DAYMS)), SB(t[2])), SB(1000)), SB(IF Len(t) >= 3 THEN t[3] ELSE 0))
 D0(B) == IF B.scale = "linear" THEN SB(B.dom3[1]) ELSE Ms(B.domt[1])
 D1(B) == IF B.scale = "linear" THEN SB(B.dom3[2]) ELSE Ms(B.domt[2])
 \* |pos5 * (d1 - d0) - L5 * (t - d0)| <= tol * |d1 - d0|
+\* (time scale: the code converts instants to float milliseconds, whose resolution at 10^12 is a quarter of a microsecond: one
+\*  microsecond of elapsed time is allowed on top of the printing tolerance)
 OnLine(B, pos5, t, tol) == LET dd == SSub(D1(B), D0(B)) IN
-    SLe(SAbs(SSub(SMul(SB(pos5), dd), SMul(SB(B.L5), SSub(t, D0(B))))), SMul(SB(tol), SAbs(dd)))
+    SLe(SAbs(SSub(SMul(SB(pos5), dd), SMul(SB(B.L5), SSub(t, D0(B))))),
+        SAdd(SMul(SB(tol), SAbs(dd)), IF B.scale = "linear" THEN SB(0) ELSE SB(B.L5)))
 TimeOf(B, i) == IF B.scale = "linear" THEN SB(B.data[i].t3) ELSE Ms(B.data[i].t)
 TickTime(B, k) == IF B.scale = "linear" THEN SB(B.tickvals[k].v3) ELSE Ms(B.tickvals[k].t)
 Increasing(B) == SCmp(D0(B), D1(B)) < 0
@@ -55,6 +59,10 @@ C07_DotsAtTrueTime == \A B \in Backends : (OnePerDatum(B) /\ NonDegenerate(B)) =
     /\ \A i \in 1..B.n : OnLine(B, B.dots[i].pos5, TimeOf(B, i), 3)
 C07_OnAxis == \A B \in Backends : /\ B.axis5 = B.L5 /\ B.axis_other5 = 0
                                    /\ \A i \in 1..Len(B.dots) : B.dots[i].other5 = 0
+\* "so every dot lies on the axis line": the axis line is the segment from 0 to the axis length; the domain (derived from the
+\* data, or given explicitly and covering the data) is mapped onto it, so no dot may fall beyond either end
+C07_DotsOnAxisSegment == \A B \in Backends : \A i \in 1..Len(B.dots) : B.dots[i].pos5 >= -3 /\ B.dots[i].pos5 <= B.L5 + 3
+\* (ticks are values of the domain by C16, which allows a millisecond of slack for sub-second spacings: not restated here)
 \* ticks: one per tick of the scale, on the same affine map (TikZ truncates tick origins to integers)
 TickTol(B) == IF B.backend = "tikz" THEN U5 + 3 ELSE 3
 C07_TicksOnLine == \A B \in Backends : NonDegenerate(B) =>
@@ -154,7 +162,9 @@ C09_SameDots == Counts => \A i \in 1..Len(S.dots) :
     /\ Abs(S.dots[i].pos5 - X.dots[i].pos5) <= 1 /\ S.dots[i].other5 = X.dots[i].other5 /\ S.dots[i].size5 = X.dots[i].size5
 C09_SameTicks == Counts => \A k \in 1..Len(S.ticks) :
     /\ S.ticks[k].text = X.ticks[k].text
-    /\ S.ticks[k].pos5 - X.ticks[k].pos5 >= 0 /\ S.ticks[k].pos5 - X.ticks[k].pos5 <= U5     \* TikZ truncates to an integer
+    \* TikZ truncates to an integer (toward zero: a tick a hair before the start of the axis is drawn at 0)
+    /\ Abs(S.ticks[k].pos5 - X.ticks[k].pos5) <= U5
+    /\ (S.ticks[k].pos5 >= 0 => S.ticks[k].pos5 - X.ticks[k].pos5 >= 0) /\ (S.ticks[k].pos5 <= 0 => S.ticks[k].pos5 - X.ticks[k].pos5 <= 0)
     /\ X.ticks[k].pos5 % U5 = 0
 C09_SameColours == Counts =>
     /\ \A i \in 1..Len(S.dots) : S.dots[i].rgb = X.dots[i].rgb
